@@ -379,7 +379,7 @@ func (h *hgen) step() {
 		h.guardFull(false)
 		h.do("e cancelpiece %d", h.pickPiece())
 	case x < 790:
-		h.do("x age %d", 1000*r.PickInt(1, 2, 3, 5, 8, 13, 31))
+		h.do("x age %d", 10000*r.PickInt(1, 1, 2, 3, 4))
 	case x < 860:
 		h.guardFull(false)
 		h.do("t expire rto=%d k=%s", s.p.VerifRto().Milliseconds(), s.predictK(false))
@@ -388,7 +388,7 @@ func (h *hgen) step() {
 			h.do("x drain %d", 1+r.Intn(len(s.realW)))
 		}
 	case x < 920:
-		h.do("h rtt %d", r.PickInt(0, 500, 1500, 3500, 7500))
+		h.do("h rtt %d", r.PickInt(0, 2500, 5000, 7500))
 	case x < 940:
 		h.do("h rate %s", []string{"big", "big", "zero"}[r.Intn(3)])
 	case x < 960:
@@ -506,7 +506,7 @@ func genHistory(it *interp, r *vhlib.Rand, kind int) {
 		h.do("m unchoke")
 	}
 	if h.alive() && r.Chance(50) {
-		h.do("h rtt %d", r.PickInt(500, 1500, 3500, 7500))
+		h.do("h rtt %d", r.PickInt(2500, 5000, 7500))
 	}
 	n := 20 + r.Intn(50)
 	rateSet := false
@@ -552,16 +552,16 @@ func scripted(it *interp) {
 	do("m haveall")
 	do("m unchoke")
 	do("e request 262143,262144,262145 k=0")
-	do("h rtt 1500")
+	do("h rtt 2500")
 	do("h rate big")
 	nch := (bigTotal + CS - 1) / CS
 	do("e request 262146,262147,300001,%d k=inf", nch-1)
 	do("e cancel 262145")
 	do("e cancelpiece 87381")
-	do("x age 31000")
-	do("t expire rto=1500 k=inf")
-	do("x age 4000")
-	do("t expire rto=1500 k=inf")
+	do("x age 40000")
+	do("t expire rto=2500 k=inf")
+	do("x age 10000")
+	do("t expire rto=2500 k=inf")
 	// queue depth 1 and 2^31
 	for _, q := range []uint32{1, 1 << 31} {
 		do("new ps=32768 len=300000 info=1 fast=0 wcap=64 my=-")
@@ -569,7 +569,7 @@ func scripted(it *interp) {
 		do("m bitfield ffc0")
 		do("m unchoke")
 		do("e request 0,1,2,3,4,5,6,7,18 k=0")
-		do("h rtt 500")
+		do("h rtt 2500")
 		do("h rate big")
 		do("e request 8,9,10 k=inf")
 		do("m piece 0 0 16384 16384 k=inf")
